@@ -72,6 +72,23 @@ pub fn library() -> Vec<(&'static str, Option<Vec<Stmt>>)> {
                 ],
             )),
         ),
+        // a loop of the partial's own: under include its parent is the caller's loop (if any), under render it has none;
+        // the same parsed loop runs nested in one place and outermost in another
+        (
+            "p_innerloop",
+            Some(wrap(
+                "J",
+                vec![for_(
+                    "j",
+                    Src::Range(Expr::int(1), Expr::int(2)),
+                    vec![
+                        if_(Cond::Truthy(Expr::path("forloop", &["parentloop"])), vec![Stmt::Out(Expr::path("forloop", &["parentloop", "index"]))], Some(vec![text("-")])),
+                        text("."),
+                        Stmt::Out(Expr::var("j")),
+                    ],
+                )],
+            )),
+        ),
         ("p_err", Some(wrap("E", vec![Stmt::Out(Expr::var("undefined_var"))]))),
         ("n_inc", Some(wrap("N", {
             let mut v = vec![Stmt::Include { name: Expr::s("p_assign"), args: vec![] }];
